@@ -11,6 +11,8 @@ import (
 type nodeContext struct {
 	bindings map[string]any
 	config   Config
+	// depth is the number of include tags this render is nested in (0 for the template itself).
+	depth int
 }
 
 // newNodeContext creates a new evaluation context.
@@ -21,7 +23,7 @@ func newNodeContext(scope map[string]any, c Config) nodeContext {
 	for k, v := range scope {
 		vars[k] = v
 	}
-	return nodeContext{vars, c}
+	return nodeContext{bindings: vars, config: c}
 }
 
 // Evaluate evaluates an expression within the template context.
